@@ -16,7 +16,9 @@ def keyPath (d : XDoc) (k : Key) : String :=
   | some (.ns _ p u) => s!"ns:{encode (if p.isEmpty then "xmlns".toList else p)}={encode u}"
   | some (.attr _ q _) =>
       let owner := (parentKey k).getD []
-      String.join (owner.map fun i => s!"/{i - 2}") ++ s!"/@{encode q.loc}"
+      -- two attributes of one element may share their local part (p:n and n): the path names the prefix too
+      let shown := match q.pre with | some pf => pf ++ [':'] ++ q.loc | none => q.loc
+      String.join (owner.map fun i => s!"/{i - 2}") ++ s!"/@{encode shown}"
   | _ => if k.isEmpty then "/" else String.join (k.map fun i => s!"/{i - 2}")
 
 def showValue (d : XDoc) : Value → String
